@@ -1,4 +1,5 @@
 import PepperProofs.Finish
+import PepperProofs.LoadInvSys
 /-!
 # C16 — saved compiler state reloads to the same system and matches its `.pil`  (PARTIAL)
 
@@ -19,6 +20,15 @@ expresses.  What IS proved, over the model of the saved state (`Comp.St` tables,
 
 Definitions (`pilSeqDecls` …, `stSeqDecls` …, `treeSeqDecls`, `allComps`, `depth`, `snapshot`, `SnapComp`)
 are in `PepperProofs/Finish.lean`.
+
+Hypotheses: `state_matches_pil` / `state_matches_pil_tree` carry the decidable `constLenB` / `allConstLen`
+(every recorded length is the length of the recorded constraint string).  **Discharged by theorem** for
+whatever the compiler builds: `state_matches_pil_of_load` / `state_matches_pil_tree_of_load` replace it by
+`Comp.load … = .ok (s, _)` / `Sys.loadFile … = .ok (inst, _)` (`PepperProofs/LoadInv.lean` `load_constLen`,
+`LoadInvSys.lean` `loadFile_constLen`; needs only that the component sources' statement names are user names,
+`StmtNamesOk` — the statement part of C01's `UserNamesOk`).  The driver still evaluates `allConstLen` on every
+run; it is now a redundant cross-check (and the only evidence for sources outside `StmtNamesOk`).  The
+well-formedness `Finish.wfB` that C06/C17 assume is discharged the same way (`finish_wf_of_load`).
 -/
 namespace Pepper.C16
 open Pepper Pepper.Finish Pepper.Comp Pepper.Sys
@@ -47,6 +57,36 @@ theorem state_matches_pil_tree (inst : Inst) :
     pilStrandDecls (Emit.instStmts inst) = (allComps inst).flatMap stStrandDecls ∧
     pilStructDecls (Emit.instStmts inst) = (allComps inst).flatMap stStructDecls :=
   instStmts_decls inst
+
+/-- (a), one component, **for whatever `load` returns** (no `constLenB` hypothesis): the object names and
+    lengths of the component the compiler builds from `src` are exactly the declarations of the statements it
+    emits, kind by kind and in order -/
+theorem state_matches_pil_of_load {src : Comp.Src} {n : Nat} {pfx : String} {a a' : Nat} {s : Comp.St}
+    (hload : Comp.load src n pfx a = .ok (s, a')) (hn : LoadInv.StmtNamesOk src = true) :
+    pilSeqDecls (Emit.compStmts s) = stSeqDecls s ∧
+    pilSupDecls (Emit.compStmts s) = stSupDecls s ∧
+    pilStrandDecls (Emit.compStmts s) = stStrandDecls s ∧
+    pilStructDecls (Emit.compStmts s) = stStructDecls s :=
+  ⟨(state_matches_pil s).1 (LoadInv.load_constLen hload hn), (state_matches_pil s).2⟩
+
+/-- (a), whole tree, **for whatever `loadFile` returns** (no `allConstLen` hypothesis) -/
+theorem state_matches_pil_tree_of_load {b : Bundle} (hb : LoadInv.CompNamesOk b) {fuel : Nat} {base : String}
+    {args : Nat} {argKey pfx path : String} {includes : List String} {anon : Nat} {inst : Inst} {a' : Nat}
+    (hload : Sys.loadFile b fuel base args argKey pfx path includes anon = .ok (inst, a')) :
+    pilSeqDecls (Emit.instStmts inst) = treeSeqDecls inst ∧
+    pilSupDecls (Emit.instStmts inst) = (allComps inst).flatMap stSupDecls ∧
+    pilStrandDecls (Emit.instStmts inst) = (allComps inst).flatMap stStrandDecls ∧
+    pilStructDecls (Emit.instStmts inst) = (allComps inst).flatMap stStructDecls :=
+  ⟨(state_matches_pil_tree inst).1 (LoadInv.loadFile_constLen hb hload), (state_matches_pil_tree inst).2⟩
+
+/-- the well-formedness `finish` needs to read its relations record by record (`Finish.wfB`: atomic names
+    distinct within a component, an atomic sequence is its own single base sequence, strand names distinct)
+    holds for whatever `loadFile` returns -/
+theorem finish_wf_of_load {b : Bundle} (hb : LoadInv.CompNamesOk b) {fuel : Nat} {base : String}
+    {args : Nat} {argKey pfx path : String} {includes : List String} {anon : Nat} {inst : Inst} {a' : Nat}
+    (hload : Sys.loadFile b fuel base args argKey pfx path includes anon = .ok (inst, a')) :
+    Finish.wfB inst = true :=
+  LoadInv.loadFile_finish_wf hb hload
 
 /-- the component order of the `.pil` is the component order `finish` walks (trees nested less than 64 deep:
     `compsOf 64` is the fuelled `System.components` recursion of the finish model) -/
